@@ -84,7 +84,14 @@ def gen_fea(rng):
     L.append(f"  Attach {gg[0]} 1 2; Attach {gg[1]} 3; Attach {gg[2]} 0 4;")
     L.append(f"  LigatureCaretByPos lig1 {rng.randint(10, 90)}; LigatureCaretByPos lig2 {rng.randint(10, 40)} {rng.randint(50, 90)};")
     L.append("} GDEF;")
-    return "\n".join(L) + "\n"
+    fea = "\n".join(L) + "\n"
+    # Extension lookups (GPOS type 9 / GSUB type 7): the real subtable hangs below an ExtensionPos/ExtensionSubst wrapper
+    if rng.random() < 0.5:
+        import re
+        names = [n for n in ("S2", "P1", "P3", "P2", "MF", "SS", "PS") if rng.random() < 0.6]
+        for n in names:
+            fea = re.sub(r"lookup %s \{" % n, "lookup %s useExtension {" % n, fea, count=1)
+    return fea
 
 
 def build_font(fea_text, glyph_order=None, colr_rng=None):
